@@ -728,7 +728,7 @@ func (fr *Frame) havocElems(st *State, sv *SliceV) {
 		fr.havocType(st, et)
 		return
 	}
-	if s, ok := leafSort(et); ok && (s == SInt || s == SBool) {
+	if s, ok := leafSort(et); ok && (s == SInt || s == SBool || s == SArrII || s == SArrIB) {
 		key := elemKey(et)
 		a := vc.getGlob(st, key, arrOf(arrOf(s)))
 		vc.eng.noteGlobSort(key, arrOf(arrOf(s)))
